@@ -80,6 +80,9 @@ def reply(mid, ans, ev='m', k=0):
     else:
         # 'e' error, 'w' warning, 'x' = warning then error, 'y' = error then warning (both count as an error answer)
         body = {'e': one('error'), 'w': one('warning'), 'x': one('warning') + one('error'), 'y': one('error') + one('warning')}[ans]
+    if k % 3 == 2:
+        # the same document with the base namespace bound to a prefix (as many servers write it)
+        return '<nc:rpc-reply xmlns:nc="%s" message-id="%s">%s</nc:rpc-reply>' % (BASE_NS, mid, body.replace('<', '<nc:').replace('<nc:/', '</nc:'))
     return '<rpc-reply message-id="%s" xmlns="%s">%s</rpc-reply>' % (mid, BASE_NS, body)
 
 
